@@ -6,7 +6,7 @@ from ..world import all_eq, as_int, lnot, blist, mkstr, mkbytearray
 
 PROPERTY = 'C08'
 BUDGET = {'quick': {'seconds': 1200, 'xreplay_every': 40}, 'thorough': {'seconds': 6000, 'xreplay_every': 400}}
-NONTRIVIAL = {'quick': ['buffer-reused', 'resumed', 'resumed-expiry', 'expiry', 'no-expiry', 'second-expiry', 'third-expiry', 'dup-on-repeat', 'v31-dup', 'spacing', 'monotone-gap', 'interleaved']}
+NONTRIVIAL = {'quick': ['early-publish', 'buffer-reused', 'resumed', 'resumed-expiry', 'expiry', 'no-expiry', 'second-expiry', 'third-expiry', 'dup-on-repeat', 'v31-dup', 'spacing', 'monotone-gap', 'interleaved']}
 
 REQS = ('pub1', 'pub2', 'pubrel', 'sub', 'unsub')
 EPS = Fraction(1, 10 ** 6)      # slack for float rounding in concrete replays (time comparisons only)
@@ -34,9 +34,10 @@ def h_retry(eng, params):
     flow = Flow(eng, 'pubsubs', ver=params['ver'], jitter='symbolic')
     w = flow.w
     w.env.jitter_pool = []
-    flow.open()
+    early = params.get('early') and kind in ('pub1', 'pub2')
+    flow.open(connack=not early)
     c = flow.c
-    T = eng.int('timeout', 1, 1024)
+    T = eng.int('timeout', 1, 1024) if not early else eng.int('timeout', 1, 8)
     flow.set_timeout(T)
     B = eng.real('bandwith', Fraction(1, 1000), 10 ** 7)
     flow.set_bandwith(B, params['factor'])
@@ -67,8 +68,14 @@ def h_retry(eng, params):
     if tr is None:
         return None
     ptype = TYPE[kind]
+    if early:
+        # the request was issued between connect() and CONNACK; the CONNACK is slow (the retry timer may expire first)
+        flow.advance(hi=9)
+        flow.connack(0)
+        eng.count('early-publish')
     first_step = len(w.steps) - 1
     t_first = w.now()
+    tx_base = len(transmissions(flow, c, ptype, tr.msgId))
     # ---- k advances, one unrelated event somewhere in between
     unrelated_at = eng.choose(params['k'] + 1, 'unrelated-at') if params.get('unrelated') else -1
     expiries = 0
@@ -81,7 +88,8 @@ def h_retry(eng, params):
     tm0 = the_timer()
     if tm0 is None:
         return None
-    due_log.append((w.now(), tm0.getTime()))
+    tx_now = transmissions(flow, c, ptype, tr.msgId)
+    due_log.append((tx_now[-1][1] if tx_now else w.now(), tm0.getTime()))
     for i in range(params['k']):
         if i == unrelated_at:
             what = eng.choose(('publish0', 'stray-ack', 'window'), 'unrelated')
@@ -122,7 +130,7 @@ def h_retry(eng, params):
                       sig='repeat-without-expiry:' + kind)
     # ---- content, DUP, spacing over all transmissions
     tx = transmissions(flow, c, ptype, tr.msgId)
-    eng.check(len(tx) == 1 + expiries, 'transmission-count')
+    eng.check(len(tx) == tx_base + expiries, 'transmission-count')
     s0, t0, p0, raw0 = tx[0]
     eng.check(p0['dup'] == 0, 'first-transmission-dup')
     for i, (st, t, p, raw) in enumerate(tx[1:]):
@@ -152,7 +160,7 @@ def h_retry(eng, params):
     pool = w.env.jitter_pool
     if ptype == 'PUBLISH':
         # jitter values are drawn once per transmission of this single request (the QoS 2 PUBLISH of the pubrel case draws one before)
-        offs = 0
+        offs = tx_base - 1      # jitter values already drawn by transmissions before the observed stretch
         delays = [(d - t) for (t, d) in due_log]
         for i in range(1, len(delays)):
             if i + offs < len(pool) and i - 1 + offs < len(pool):
@@ -239,6 +247,8 @@ def shards(tier):
                         out.append(('retry', {'ver': ver, 'req': req, 'size': size, 'factor': factor, 'k': 6 if T else 4, 'unrelated': unrelated}))
         for req in ('pub1', 'pub2', 'pubrel'):
             out.append(('resume', {'ver': ver, 'req': req, 'k': 3 if T else 2}))
+        for req in ('pub1', 'pub2'):
+            out.append(('retry', {'ver': ver, 'req': req, 'size': 2, 'factor': 2, 'k': 4 if T else 3, 'unrelated': False, 'early': True}))
     return out
 
 
